@@ -278,3 +278,27 @@ Proof.
   destruct (mapM_in _ _ _ _ H6 Hinv) as [y [Hy Hiny]]. destruct (member_error_in _ _ _ _ _ _ _ _ Hy Hine) as [m [Hm Hinm]].
   exists m. split; [exact Hm|]. do 6 (apply in_or_app; right). apply in_or_app. left. apply in_concat. exists y. split; assumption.
 Qed.
+
+(* ---- rule 9, the enum half: a tuple variant mapped to a struct-form counterpart variant (`#[type_hint(as {})]`) whose payload field
+   carries no instruction for the conversion - for every variant, payload field, trait instruction and kind ---- *)
+Lemma variant_order_listed : forall k f, In (k, f) variant_by_kind_order.
+Proof. intros k f; destruct k, f; cbn; tauto. Qed.
+
+Theorem rule_tuple_variant_to_named_without_names : forall order_tp e msgs v f ta k h,
+    validate_msgs order_tp (DEnum e) = Ok msgs ->
+    In v (e_variants e) -> v_named v = false -> In f (v_fields v) ->
+    In ta (iter_for_kind (e_attrs e) k (ta_fallible ta)) -> tc_qret (ta_core ta) = None ->
+    m_hint_for (v_attrs v) (tc_ty (ta_core ta)) = Some h -> th_hint h = HStruct ->
+    m_ghost_for (f_attrs f) (tc_ty (ta_core ta)) k = None -> has_parent_attr (f_attrs f) (tc_ty (ta_core ta)) = false ->
+    applicable_field_attr (f_attrs f) k false (tc_ty (ta_core ta)) = None ->
+    In ("Member " ^^ member_str (f_member f) ^^ " of a variant " ^^ v_ident v ^^ " should have member trait instruction with field name" ^^
+        (if is_from k then " or an action" else "") ^^
+        ", that corresponds to #[" ^^ fallible_kind_str k (ta_fallible ta) ^^ "(" ^^ tp_str (tc_ty (ta_core ta)) ^^ "...)] trait instruction") msgs.
+Proof.
+  intros order_tp e msgs v f ta k h H Hv Hn Hf Hta Hq Hh Hhs Hg Hpa Hap.
+  destruct (validate_msgs_parts _ _ _ H) as [m1 [m6 [-> _]]]. cbn [dt_get_attrs] in *.
+  do 7 (apply in_or_app; right). apply in_flat_map. exists v. split; [exact Hv|].
+  unfold validate_variant_fields. rewrite Hn. apply in_flat_map. exists (k, ta_fallible ta). split; [apply variant_order_listed|].
+  cbn [fst snd]. apply in_flat_map. exists ta. split; [exact Hta|]. cbv zeta. rewrite Hh, Hhs, Hq. cbn [is_some negb hint_eqb andb].
+  unfold check_unnamed_fields. apply in_flat_map. exists f. split; [exact Hf|]. rewrite Hg, Hpa. cbn [is_some orb]. rewrite Hap. left. reflexivity.
+Qed.
